@@ -510,6 +510,7 @@ func exhausts(fn *ssa.Function, l, r ssa.Value) bool {
 func runC15(c *Ctx) {
 	p := c.P
 	const P = "C15"
+	runTransferPositive(c, P)
 	c.rule(P, "alloc", "wire-sized allocation on the connection path ⇒ dominated by its documented bound (shared with C13/alloc)", 9)
 	c.rule(P, "once-in-order", "connection loop: at most one WriteReply per ReadCall on any path; no `go` in the loop body; reply derives from this iteration's call", 3)
 	c.rule(P, "close-on-garbage", "ReadCall/HandleCall error edges reach the function exit (deferred conn.Close) without re-entering the loop", 3)
